@@ -183,6 +183,9 @@ def cases(tier, seed):
             if fam == "billing" and kd["name"] in ("gaps", "short_and_gaps", "negative_gas"):
                 continue        # a 60-day gap / one negative day in daily usage is not a defect of the monthly bills built from it
             out.append(dict(kd, family=fam, seed=int(100 * seed + k)))
+    # far too short a baseline, fitted with the override: a model comes back (fewer days than the hourly model's usual number of day clusters)
+    out.append({"name": "very_short", "n_days": 45, "expect_data_dq": True, "family": "hourly", "seed": int(100 * seed + 71)})
+    out.append({"name": "very_short", "n_days": 45, "expect_data_dq": True, "family": "daily", "seed": int(100 * seed + 72)})
     for sd in (1, 3, 6, 7) if tier == "quick" else (1, 3, 5, 6, 7, 8, 11):
         out.append({"name": "pilot_gas", "pilot_gas": True, "expect_data_dq": False, "family": "daily", "seed": sd})
     return out
